@@ -490,6 +490,69 @@ func (m *C17Monitor) BeginBlockEntry(c *Chain, ctx sdk.Context) {
 			}
 		}
 	}
+	// 4. "exactly the accepted data": what an honest committing validator sent is written, whatever else the commit holds
+	for _, sv := range c.lastExt.Votes {
+		if sv.BlockIdFlag != cmtproto.BlockIDFlagCommit {
+			continue
+		}
+		honest, ok := c.LastHonest[string(sv.Validator.Address)]
+		if !ok || len(honest) == 0 || !bytes.Equal(honest, sv.VoteExtension) {
+			continue
+		}
+		var s sentExt
+		for _, x := range sent {
+			if bytes.Equal(x.val.ConsAdr, sv.Validator.Address) {
+				s = x
+			}
+		}
+		if s.val == nil || !s.ok {
+			continue
+		}
+		op := s.val.ValAdr.String()
+		myEVM, registered := evm[op]
+		if len(s.ext.InitialSignature.SignatureA) > 0 {
+			m.st.Count("c17.completeness.evals")
+			if !registered {
+				c.Violate("C17", "c17", "accepted-initial-signatures-of-a-committing-validator-not-registered", map[string]interface{}{"operator": op})
+			}
+		}
+		if !registered {
+			continue
+		}
+		if sig := s.ext.ValsetSignature; len(sig.Signature) > 0 {
+			if slots, ok := vs[sig.Timestamp]; ok {
+				if prevSet, ok := m.previousSetOf(c, ctx, sig.Timestamp); ok {
+					for j, bv := range prevSet.BridgeValidatorSet {
+						if bytes.Equal(bv.EthereumAddress, myEVM) && j < len(slots) && !dupAddr[string(myEVM)] {
+							m.st.Count("c17.completeness.evals")
+							if !bytes.Equal(slots[j], sig.Signature) && len(m.vsigs[sig.Timestamp]) > j && len(m.vsigs[sig.Timestamp][j]) == 0 {
+								c.Violate("C17", "c17", "accepted-checkpoint-signature-not-written-to-its-slot", map[string]interface{}{"operator": op, "ts": sig.Timestamp, "slot": j})
+							}
+						}
+					}
+				}
+			}
+		}
+		for _, a := range s.ext.OracleAttestations {
+			slots, ok := at[string(a.Snapshot)]
+			if !ok {
+				continue
+			}
+			set, same, ok := m.setOfSnapshot(c, ctx, a.Snapshot)
+			if !ok || !same || dupAddr[string(myEVM)] {
+				continue
+			}
+			for i, bv := range set.BridgeValidatorSet {
+				if bytes.Equal(bv.EthereumAddress, myEVM) && i < len(slots) {
+					m.st.Count("c17.completeness.evals")
+					m.st.Bucket("c17|completeness|attestation-written=%v", bytes.Equal(slots[i], a.Attestation))
+					if !bytes.Equal(slots[i], a.Attestation) {
+						c.Violate("C17", "c17", "accepted-attestation-not-written-to-its-slot", map[string]interface{}{"operator": op, "slot": i, "snapshot": hex.EncodeToString(a.Snapshot)[:16]})
+					}
+				}
+			}
+		}
+	}
 	m.evm, m.vsigs, m.atts = evm, vs, at
 }
 
